@@ -325,6 +325,53 @@ theorem short_form_value (m e : Str) (sg : Char) (hm : ∀ c ∈ m, isDig c = tr
     simp [hmk]
 
 
+/-- **fortran_number_sound** ("nothing else is accepted"). Whatever
+    `convert_fortran_number` accepts — through `float()`, the lone sign, the anchored
+    short form or the D → e replacement — is a number of the documented grammar, and
+    the value returned is the documented value. For every item text (modelled alphabet). -/
+theorem fortran_number_sound (s : Str) (v : Dec) (h : convertFortran s = .ok v) : specNumber s = some v := by
+  unfold convertFortran at h
+  cases hp : pyFloat s with
+  | some v' =>
+    simp only [hp] at h
+    injection h with h
+    subst h
+    exact pyFloat_spec s v' hp
+  | none =>
+    simp only [hp] at h
+    by_cases hl : (s = ['+'] ∨ s = ['-'])
+    · have hl' : (decide (s = ['+']) || decide (s = ['-'])) = true := by simpa using hl
+      rw [if_pos hl'] at h
+      injection h with h
+      subst h
+      unfold specNumber
+      rw [if_pos hl']
+    · have hl' : ¬ (decide (s = ['+']) || decide (s = ['-'])) = true := by simpa using hl
+      rw [if_neg hl'] at h
+      cases hs : shortForm s with
+      | some t =>
+        simp only [hs] at h
+        cases hpt : pyFloat t with
+        | some v' =>
+          simp only [hpt] at h
+          injection h with h
+          subst h
+          exact shortForm_sound s t v' hl hs hpt
+        | none => simp [hpt] at h
+      | none =>
+        simp only [hs] at h
+        by_cases hd : (s.any (fun c => c = 'D' || c = 'd')) = true
+        · rw [if_pos hd] at h
+          cases hpd : pyFloat (s.map replD) with
+          | some v' =>
+            simp only [hpd] at h
+            injection h with h
+            subst h
+            exact dBranch_sound s v' hl hpd
+          | none => simp [hpd] at h
+        · rw [if_neg hd] at h
+          simp at h
+
 /-- a lone sign is 0 -/
 theorem lone_sign_zero :
     convertFortran ['+'] = .ok ⟨false, 0, 0⟩ ∧ convertFortran ['-'] = .ok ⟨false, 0, 0⟩ := by decide
